@@ -455,10 +455,11 @@ fn gen_case(rng: &mut Rng, id: usize, tier: &str) -> String {
         (rng.range(1, 6) * c as i64) + rng.range(-2, 2)
     } else if sel < 88 {
         rng.range(1, 300)
-    } else if sel < 97 || !thorough {
+    } else if sel < 97 || (!thorough && sel < 99) {
         // around C*C: one more row than columns, full blocks of the AVX2 striping
         (c * c) as i64 + rng.range(-3, 40)
     } else {
+        // around 256 rows (1 % of the quick tier, 3 % of the thorough tier)
         (c * 256) as i64 + rng.range(-3, 3)
     };
     if thorough && sel >= 22 && sel < 30 {
